@@ -14,7 +14,7 @@ def run_c03(res, tier):
     import asmcore
     asmcore.run_asm_core(res, ast, thorough=(tier == "thorough"))
     import jit
-    jit.run_jit_rules(res, ast, ["CALL-SAVE", "CALL-PROTO", "JIT-TERM", "PROBE-SEQ", "PROBE-DIR-JIT", "ABI-OFFSETS",
+    jit.run_jit_rules(res, ast, ["SHIM-EFFECT", "CALL-SAVE", "CALL-PROTO", "JIT-TERM", "PROBE-SEQ", "PROBE-DIR-JIT", "ABI-OFFSETS",
                                  "LIM-JIT", "FRAME", "BR-JIT", "REG-COUNT"])
     import mirrules
     from mir import load_facts
